@@ -155,7 +155,14 @@ class SpecGen:
         return {self.randcase("path") + key[4:]: parts}
 
 
+NAMED_TYPES = (int, float, str, list, dict, bool)
+
+
 def delist(a):
+    """Lists for tuples; a type object that has no name in the library's type table (NoneType, tuple ...) cannot be
+    written in a spec or serialised at all, so it is outside the spec-language properties: replaced by a named one."""
+    if isinstance(a, type) and a not in NAMED_TYPES:
+        return str
     if isinstance(a, (list, tuple)):
         return [delist(x) for x in a]
     if isinstance(a, dict):
@@ -168,6 +175,9 @@ def normalise_cond(t):
     for l in t.leaves():
         l.args = [a if isinstance(a, PathT) else delist(a) for a in l.args]
         l.kwargs = {k: (a if isinstance(a, PathT) else delist(a)) for k, a in l.kwargs.items()}
+        if l.method in ("is_instance", "keys_is_instance"):
+            # a string where classes go has no spec form (a string there is read as a type name): outside the spec language
+            l.args = [str if isinstance(a, str) else a for a in l.args]
         for a in list(l.args) + list(l.kwargs.values()):
             if isinstance(a, PathT):
                 normalise_path(a)
